@@ -403,7 +403,7 @@ bool TasgridWrapper::executeCommand(){
 
     switch(command){
         case command_update:
-            grid.updateGrid(depth, depth_type, readAnisotropic());
+            grid.updateGrid(depth, depth_type, readAnisotropic(), readLimits());
             break;
         case command_getdiffweights:
         case command_getinterweights:
